@@ -613,7 +613,13 @@ func checkC16(e *core.Env) {
 				callDone := make(chan struct{})
 				go func() {
 					defer close(callDone)
-					st, serr := cc.NewStream(ctx, cdesc, full)
+					callName := full
+					if carrier == "inproc" && r.Intn(3) == 0 {
+						// the in-process channel also takes method strings without the leading slash; interceptors
+						// are told the full method name all the same
+						callName = full[1:]
+					}
+					st, serr := cc.NewStream(ctx, cdesc, callName)
 					err = serr
 					if serr == nil {
 						st.SendMsg(&tpb.Message{Payload: []byte("req")})
